@@ -239,6 +239,7 @@ func main() {
 		emit := func(i int, tc tcase, bs []byte, how string) {
 			dv, dres := unmarshal(bs, tc.t, tc.params)
 			decS := dres
+			g.Stats["outcome:"+how+":"+dres]++
 			if dres == "Ok" {
 				decS = "(Ok " + berlib.CoqValue(dv) + ")"
 			} else if dres == "Timeout" {
@@ -281,7 +282,50 @@ func main() {
 			}
 			m := append([]byte{}, bs...)
 			how := ""
-			switch rng.Intn(7) {
+			switch rng.Intn(9) {
+			case 7, 8:
+				// wrong type: rewrite the identifier octets of some (possibly nested) element,
+				// keeping its length and contents
+				hs := tlvHeaders(m, 0, 0)
+				if len(hs) > 0 {
+					h := hs[0]
+					if rng.Intn(3) == 0 {
+						h = hs[rng.Intn(len(hs))]
+					}
+					old := m[h.start]
+					var id []byte
+					switch rng.Intn(6) {
+					case 0:
+						id = []byte{old ^ 0x20} // other form
+					case 1:
+						id = []byte{old ^ byte(0x40<<uint(rng.Intn(2)))} // other class
+					case 2:
+						id = []byte{old&0xe0 | byte(rng.Intn(31))} // other low tag number
+					case 3:
+						id = []byte{byte(rng.Intn(31))} // some universal primitive
+					case 4:
+						tn := []uint64{31, 127, 128, 16384, 2097152}[rng.Intn(5)]
+						id = []byte{old | 0x1f}
+						var tmp []byte
+						for ; tn > 0; tn >>= 7 {
+							tmp = append([]byte{byte(tn & 0x7f)}, tmp...)
+						}
+						for k := 0; k < len(tmp)-1; k++ {
+							tmp[k] |= 0x80
+						}
+						id = append(id, tmp...)
+					default:
+						id = []byte{byte(rng.Intn(256))}
+						if id[0]&0x1f == 0x1f {
+							id = append(id, byte(1+rng.Intn(126)))
+						}
+					}
+					nm := append([]byte{}, m[:h.start]...)
+					nm = append(nm, id...)
+					nm = append(nm, m[h.lenStart:]...)
+					m = nm
+				}
+				how = "retag"
 			case 0:
 				m = m[:rng.Intn(len(m))]
 				how = "truncate"
